@@ -220,7 +220,8 @@ def close_part(ctx, c):
         c.failures.append(Failure('correspondence', 'coq evaluation of closed-inside cases failed: ' + e[:800]))
     for b in bad[:3]:
         p, o = cases[idx[b]], outs[idx[b]]
-        text = K.close_monitor(p, o) or 'model and implementation disagree'
+        mons = K.score_monitors(p, o)
+        text = (mons[0][2] if mons else None) or K.close_monitor(p, o) or 'model and implementation disagree'
         c.failures.append(Failure('correspondence', 'score_ends_with_tail_marker (closed from inside a routine) fails on the real library (NRT): %s. Program: %s'
                                   % (text, json.dumps(p)), theorem='score_ends_with_tail_marker_closed_inside', found_input=True,
                                   replay={'program': p, 'observed_score': o['score'], 'observed_elapsed': o['elapsed']}))
@@ -234,6 +235,19 @@ def correspond(ctx):
     heap_part(ctx, c)
     shared_part(ctx, c)
     cases, outs = T.nrt_part(ctx, c, ctx.n(150, 1500), MINE, None)
+    # list form versus raw bytes, entry by entry (any depth), on EVERY NRT run of this check -- no model involved
+    for p_, o_ in zip(cases, outs):
+        if 'fatal' in o_:
+            continue
+        two = []
+        for j, s_ in enumerate(o_['score']):
+            K._two_site(s_, two, 'score entry %d' % j)
+        c.count('nrt:list view vs raw bytes compared entry by entry', len(o_['score']))
+        if two:
+            c.failures.append(Failure('correspondence', 'the list form and the binary form of the score disagree (NRT): %s. Program: %s'
+                                      % (two[0][2], json.dumps(p_)), theorem='score_times_exact_timetags', found_input=True,
+                                      replay={'program': p_, 'observed_score': o_['score'], 'all': [t[2] for t in two][:10]}))
+            break
     T.rt_part(ctx, c, ctx.n(30, 270))
     # timetag = logical time + latency after a tempo / beats change issued by a LATE routine of that clock (harness oracle)
     T.probe_part(ctx, c, only_ops=('tempo', 'beats'), modes=('rt',))
